@@ -128,7 +128,7 @@ def loop (P : Pipe Rule Req Cfg Ex Id UId UT Core U M Dom) (S : View Rule Req Cf
 
 /-- `struct FailedExample`. -/
 structure FailedEx (Ex Id UId U M : Type) where
-  example : Ex
+  ex : Ex
   ruleIdsApplied : List Id
   unitIdsApplied : List UId
   unitIdsNotAppliedAnymore : List UId
@@ -231,7 +231,7 @@ def unitIds (P : Pipe Rule Req Cfg Ex Id UId UT Core U M Dom) (S : View Rule Req
 
 /-- `struct ExplainRequestOutput`; `core` = unit trace, backend status, response, log decision. -/
 structure ExplainOut (Ex Core Tr U M : Type) where
-  example : Ex
+  ex : Ex
   core : Core
   matchTraces : Tr
   redirectionLoop : Option (LoopOut U M)
@@ -248,8 +248,8 @@ def explain (P : Pipe Rule Req Cfg Ex Id UId UT Core U M Dom) (S : View Rule Req
 
 /-- `struct Impact`: `Impact::new_with_error` (all other fields at their defaults) or a full record. -/
 inductive Impact (Ex Core Tr U M : Type) where
-  | err (example : Ex) (error : String)
-  | ok (example : Ex) (core : Core) (matchTraces : Tr) (redirectionLoop : Option (LoopOut U M))
+  | err (ex : Ex) (error : String)
+  | ok (ex : Ex) (core : Core) (matchTraces : Tr) (redirectionLoop : Option (LoopOut U M))
 
 /-- The loop of `ImpactOutput::compute_impacts` (after the optional insertion of the analysed rule):
 `S` = view of `router`, `T` = view of `trace_unique_router`. -/
